@@ -74,7 +74,7 @@ func init() {
 		r.Floor("BufferPoolManager methods", n, 12)
 	})
 
-	reg("C13-R1", "pool metadata (pageTable, freeList, pages[], replacer, reUsablePageList) is read and written only with b.mutex held (caller-holds: getFrameID; recovery-only setters and test-only getters are allow-listed by name and their callers checked)", func(w *World, r *Report) {
+	reg("C13-R1", "pool metadata (pageTable, freeList, pages[], replacer, reUsablePageList, and the frames' dirty flag and pin count) is read and written only with b.mutex held (caller-holds: getFrameID; recovery-only setters and test-only getters are allow-listed by name and their callers checked)", func(w *World, r *Report) {
 		guarded := map[*types.Var]bool{}
 		for _, f := range []string{"pageTable", "freeList", "pages", "replacer", "reUsablePageList"} {
 			guarded[w.Field("storage/buffer", "BufferPoolManager", f)] = true
@@ -85,7 +85,10 @@ func init() {
 			"GetPages":           "test helper; no non-test caller",
 			"GetPoolSize":        "test helper; no non-test caller",
 		}
-		nAcc := 0
+		nAcc, nFrame := 0, 0
+		// the frame's dirty flag and pin count are pool bookkeeping too: eviction reads them under b.mutex alone
+		a := w.A()
+		frameMeta := map[*types.Func]bool{a.PageIsDirty: true, a.PageSetIsDirty: true, a.PageIncPin: true, a.PageDecPin: true, a.PagePinCount: true}
 		hs := w.bpmHelpers()
 		// a caller-holds helper is reachable only from the pool's own methods (whose call sites are walked below)
 		for f, h := range hs {
@@ -115,6 +118,13 @@ func init() {
 			lw := &LockWalk{W: w, Fn: fn, Init: init,
 				CallEffect: w.bpmCallEffect(fn, hs, func(in ssa.Instruction, msg string) { bad = append(bad, msg) }),
 				OnInstr: func(in ssa.Instruction, st *LState) {
+					if c, ok := in.(ssa.CallInstruction); ok && frameMeta[CalleeObj(c)] {
+						nFrame++
+						if !st.Holds(mu, false) {
+							bad = append(bad, "frame bookkeeping "+CalleeObj(c).Name()+" at "+w.InstrPos(in))
+						}
+						return
+					}
 					fa, ok := in.(*ssa.FieldAddr)
 					if !ok {
 						return
@@ -133,6 +143,7 @@ func init() {
 			r.Check(len(bad) == 0, "BPM."+fn.Name()+":metadata-under-mutex", "every access to pool metadata happens with b.mutex held", "unguarded access: "+strings.Join(bad, ", "))
 		}
 		r.Floor("guarded field accesses examined", nAcc, 30)
+		r.Floor("frame dirty-flag / pin-count accesses examined", nFrame, 10)
 		// exempt functions: who calls them
 		wmc(w, r, "BufferPoolManager.SetReusablePageIDs", map[*types.Func]bool{w.MethodObj("storage/buffer", "BufferPoolManager", "SetReusablePageIDs"): true}, map[string]string{
 			"(*recovery/log_recovery.LogRecovery).Redo": "recovery, before any other goroutine exists",
